@@ -18,6 +18,11 @@ INC_A0 = 0x6700 | (13 << 4)
 RETI = 0x45C0
 NOP = 0
 LOOP_AT, VEC0, VECV = 0x0100, 0x0006, 0x0200
+# second program family: a conditional self-branch (brr -1, eq) in front of straight-line code. Taken (z set) it is the idle
+# loop again; not taken, the core must simply go on - no fast-forward may be armed by an instruction that did not branch
+BRR_SELF_EQ = BRR_SELF | 1
+COND_AT = 0x0180
+PROGRAM = [(LOOP_AT, BRR_SELF), (VEC0, INC_A0), (VEC0 + 1, RETI), (VECV, INC_A0), (VECV + 1, RETI), (COND_AT, BRR_SELF_EQ)] + [(COND_AT + 1 + j, INC_A0) for j in range(8)] + [(COND_AT + 9, BRR_SELF)]
 
 
 def machine():
@@ -34,7 +39,7 @@ def machine():
     # program: idle loop at 0x100, int0 handler at 0x0006: inc a0 ; reti
     reg = st.wregion(ctx['mem'])
     arr = z3.Array('dspmem0', z3.BitVecSort(64), z3.BitVecSort(8))
-    for addr, w in ((LOOP_AT, BRR_SELF), (VEC0, INC_A0), (VEC0 + 1, RETI), (VECV, INC_A0), (VECV + 1, RETI)):
+    for addr, w in PROGRAM:
         arr = z3.Store(z3.Store(arr, z3.BitVecVal(2 * addr, 64), z3.BitVecVal(w & 0xFF, 8)), z3.BitVecVal(2 * addr + 1, 64), z3.BitVecVal(w >> 8, 8))
     reg.arr = arr
     vecnames = [n for n in G.mod.funcs if n.startswith('@_ZNKSt6vectorI7MatcherIN6Teakra11InterpreterEE') and n.endswith('ixEm')]
@@ -133,7 +138,7 @@ def configure(G, ex, st, ctx, case):
     def setr(f, v, i=0):
         off, sz, c_, stride = RL[f]
         ex.store(st, Ptr(pr.r, pr.o + poff[1] + off + i * stride), sz, v)
-    setr('pc', LOOP_AT)
+    setr('pc', COND_AT if case.get('prog') else LOOP_AT)
     setr('ie', case['ie'])
     setr('im', 0 if case.get('vectored') else 1, 0)
     setr('imv', 1 if case.get('vectored') else 0)
@@ -144,6 +149,8 @@ def configure(G, ex, st, ctx, case):
     for f in ('fz', 'fm', 'fn', 'fv', 'fe', 'fc0', 'flm', 'fvl', 'sata', 'cpc'):
         v = z3.BitVec('cpu.' + f, 16)
         A.append(z3.ULE(v, 1))
+        if f == 'fz' and case.get('prog'):
+            A.append(v == (1 if case['prog'] == 'taken' else 0))
         setr(f, v)
     st.pc += A
     return A, {'t0.counter': cnt, 't0.start': start, 'a0': a0}
@@ -299,7 +306,7 @@ def job_case(case, tier, seed):
         ck.inconclusive.append('case %r: %s' % (case, str(x)[:150]))
         return ck.export()
     ck.nstates += 1
-    label = ('btdmp=%d/%d ' % case['btdmp'] if case.get('btdmp') else '') + ('vectored ' if case.get('vectored') else '') + ('t1=%d/%d ' % case['t1'] if case.get('t1') else '') + 'mode %d counter %s start %s ie %d' % (case['mode'], case['counter'] if case['counter'] <= case['nmax'] else '>%d' % case['nmax'], case['start'] if case['start'] <= case['nmax'] else '>%d' % case['nmax'], case['ie'])
+    label = ('brr-eq %s ' % case['prog'] if case.get('prog') else '') + ('btdmp=%d/%d ' % case['btdmp'] if case.get('btdmp') else '') + ('vectored ' if case.get('vectored') else '') + ('t1=%d/%d ' % case['t1'] if case.get('t1') else '') + 'mode %d counter %s start %s ie %d' % (case['mode'], case['counter'] if case['counter'] <= case['nmax'] else '>%d' % case['nmax'], case['start'] if case['start'] <= case['nmax'] else '>%d' % case['nmax'], case['ie'])
     comps = [c for c in compositions(n) if len(c) > 1]
     if tier == 'quick':
         comps = [c for c in comps if c in ([1] * n, [1, n - 1], [n - 1, 1], [2] * (n // 2) + ([1] if n % 2 else []))]
@@ -315,7 +322,8 @@ def job_case(case, tier, seed):
             ck.inconclusive.append('case %r slices %r: %s' % (case, comp, str(x)[:150]))
             continue
         ck.nstates += 1
-        window = int(latency_window(case, [n]) or latency_window(case, comp))
+        # (not-taken conditional branch: the core never idles, the listed latency finding cannot apply)
+        window = 0 if case.get('prog') == 'fallthrough' else int(latency_window(case, [n]) or latency_window(case, comp))
         # two obligations per slicing: the peripheral side (timers, ICU request word - time must pass identically whatever
         # the CPU does) and the CPU side (registers, latches, stack). The listed idle-entry latency finding concerns the CPU
         # side only, so a peripheral deviation in the same input region is still reported.
@@ -382,7 +390,7 @@ def replayer(case, comp, part=None):
                 # program through the host accessors of the memory interface
                 pw = tw.lib.ti_pwrite if hasattr(tw.lib, 'ti_pwrite') else None
                 mem = None
-                for addr, w in ((LOOP_AT, BRR_SELF), (VEC0, INC_A0), (VEC0 + 1, RETI), (VECV, INC_A0), (VECV + 1, RETI)):
+                for addr, w in PROGRAM:
                     tw.fn('ti_pwrite', None, [ctypes.c_void_p, ctypes.c_uint32, ctypes.c_uint16])(t, addr, w)
                 cnt, start = inputs['t0.counter'], inputs['t0.start']
                 wr(t, 0x24, start & 0xFFFF)
@@ -405,7 +413,7 @@ def replayer(case, comp, part=None):
                         native.poke(bbase, GL, f, v_)
                 if case.get('t1'):
                     tw.fn('ti_timer1_poke', None, [ctypes.c_void_p, ctypes.c_uint16, ctypes.c_uint32, ctypes.c_uint16])(t, 1, case['t1'][0], case['t1'][1])
-                native.poke(regs, RL, 'pc', LOOP_AT)
+                native.poke(regs, RL, 'pc', COND_AT if case.get('prog') else LOOP_AT)
                 native.poke(regs, RL, 'ie', case['ie'])
                 native.poke(regs, RL, 'im', 0 if case.get('vectored') else 1, 0)
                 native.poke(regs, RL, 'imv', 1 if case.get('vectored') else 0)
@@ -489,7 +497,7 @@ def run(tier, seed):
     ck.funcs.update(['Processor::Run / Interpreter::Run (idle fast-forward, latch sampling, fetch, dispatch, interrupt block, CoreTiming::Tick)', 'CoreTiming::Tick / Skip (real std::vector of callbacks, virtual calls)',
                      'Timer::Tick/Skip/GetMaxSkip/Restart/UpdateMMIO', 'Btdmp::Tick/Skip/GetMaxSkip', 'ICU::TriggerSingle/Trigger', 'Processor::SignalInterrupt', 'brr', 'moda4 (inc)', 'reti', 'PushPC/PopPC',
                      'MemoryInterface::ProgramRead/DataRead/DataWrite, SharedMemory'])
-    ck.assumptions += ['program: idle self-branch (brr -1) at 0x100, line-0 handler at 0x0006 = inc a0 ; reti; timer 0 -> IRQ 0xA routed to core line 0 and unmasked (7 extra cases: delivered as a vectored interrupt to a handler at 0x0200 instead); timer 1 paused - or, in 16 extra cases, auto-restarting with period 1..3 and not routed, so that a second component caps the skip horizon - and audio ports disabled - or, in 8 extra cases, port 0 transmitting with period 2/3 and a full or partly filled FIFO (the skip lemmas of C15/C16 composed by CoreTiming.Skip cover the general case)',
+    ck.assumptions += ['program: idle self-branch (brr -1) at 0x100, line-0 handler at 0x0006 = inc a0 ; reti; timer 0 -> IRQ 0xA routed to core line 0 and unmasked (7 extra cases: delivered as a vectored interrupt to a handler at 0x0200 instead); timer 1 paused - or, in 16 extra cases, auto-restarting with period 1..3 and not routed, so that a second component caps the skip horizon - and audio ports disabled - or, in 8 extra cases, port 0 transmitting with period 2/3 and a full or partly filled FIFO (the skip lemmas of C15/C16 composed by CoreTiming.Skip cover the general case); second program family (8 cases): a conditional self-branch brr -1,eq at 0x180 followed by 8 x inc a0 and an unconditional self-branch, entered with z clear (not taken: straight-line code, no fast-forward may be armed) or z set (taken: idles like the first family)',
                        'timer counter and start value: partitioned into {0},...,{n+1},{> n+1} - every 32-bit value lies in exactly one cell, the last cell is a symbolic remainder; count modes single / auto-restart / free-running enumerated; global interrupt enable 0/1; accumulator and flags symbolic',
                        'excluded as the property says: a self-branch that is the last instruction of an active block repeat or the target of rep',
                        'unbounded idle skips: by the skip lemmas of C15/C16 plus CoreTiming.Skip (paper induction)']
@@ -516,6 +524,12 @@ def run(tier, seed):
     for mode, c, s_ in ((0, nmax + 1, nmax + 1), (0, 3, nmax + 1), (1, 2, 3), (2, 0, nmax + 1)):
         for t1 in ((1, 2), (2, 1), (3, 3), (0, 2)):
             cases.append({'n': n, 'nmax': nmax, 'mode': mode, 'counter': c, 'start': s_, 'ie': 1, 't1': t1})
+    # conditional self-branch family: not taken (straight-line code follows; timer far away, about to fire, interrupts on/off)
+    # and taken (idles like the unconditional loop)
+    for mode, c, s_, ie in ((0, nmax + 1, nmax + 1, 1), (0, nmax + 1, nmax + 1, 0), (0, 2, nmax + 1, 1), (1, 3, 2, 0), (0, 3, nmax + 1, 0)):
+        cases.append({'n': n, 'nmax': nmax, 'mode': mode, 'counter': c, 'start': s_, 'ie': ie, 'prog': 'fallthrough'})
+    for mode, c, s_, ie in ((0, nmax + 1, nmax + 1, 1), (0, 3, nmax + 1, 0), (1, 2, 3, 0)):
+        cases.append({'n': n, 'nmax': nmax, 'mode': mode, 'counter': c, 'start': s_, 'ie': ie, 'prog': 'taken'})
     jobs = [(job_coretiming, (tier, seed))] + [(job_case, (c, tier, seed)) for c in cases]
     for r in core.pmap(_dispatch, jobs):
         if '__error__' in r:
